@@ -41,8 +41,7 @@ func init() {
 	add("quick", 0, 1, 1, 66, 1, 3)
 	add("quick", 1, 1, 1, 64, 0, 3)
 	add("quick", 1, 2, 1, 80, 0, 3, 0, 2, 1)
-	add("thorough", 1, 1, 1, 96, 0, 2, 1)
-	add("thorough", 0, 1, 1, 96, 1, 3, 1)
+	// (three nodes of arity 1, len 96: no result within 70 minutes at 8 workers - not registered)
 	add("thorough", 0, 2, 0, 50, 1, 3)
 	add("thorough", 1, 2, 1, 80, 1, 3, 0, 2, 1)
 	// not registered: the fully symbolic two-level configurations with an arity >= 2 node
